@@ -62,7 +62,7 @@ Qed.
 
 (* the infix of an instant of the years 1970..9999 *)
 Lemma tsx_like e t : in_years e t -> ts_like (tsx e t) = true.
-Proof. intros H. unfold ts_like. cbn [filter_infix]. rewrite (parse_tsx e t H). reflexivity. Qed.
+Proof. intros H. unfold ts_like. cbn [filter_infix]. rewrite (canonical_tsx e t H). reflexivity. Qed.
 
 Lemma restart_tag_word : restart_tag = dot :: restart_word.
 Proof. reflexivity. Qed.
@@ -249,7 +249,9 @@ Proof. intros [_ [_ [H _]]]. unfold eoff. rewrite H. reflexivity. Qed.
 Lemma ts_like_head i : ts_like i = true -> exists r, i = r_char :: r.
 Proof.
   unfold ts_like. intros H.
-  cbn [filter_infix] in H. unfold parse_ts_local, std_fmt in H. cbn [parse_items parse_item] in H.
+  cbn [filter_infix] in H. unfold canonical_ts in H.
+  destruct (parse_ts_local std_fmt i) as [l|] eqn:P; [|discriminate]. clear H. rename P into H.
+  unfold parse_ts_local, std_fmt in H. cbn [parse_items parse_item] in H.
   destruct i as [|a r]; [discriminate|]. destruct (N.eqb_spec a 114%N) as [->|_]; [|discriminate]. exists r. reflexivity.
 Qed.
 
